@@ -400,6 +400,75 @@ def logsink_phase(ctx, exe, key, findings):
     return n
 
 
+def fsize_phase(ctx, exe, key, findings):
+    """munged running under an inherited file-size limit (ulimit -f / LimitFSIZE=, a usual precaution against a runaway log), its
+    log a regular file: clients that keep sending refused requests decide when the log reaches the limit.  Whichever thread then
+    tries to log - a worker refusing a request, the acceptor reporting that it is out of descriptors, the main thread on
+    SIGHUP - the daemon must go on serving."""
+    import socket as _s, subprocess, signal as _sg
+    n = 0
+    d = rig.Daemon(ctx, exe, tag="fsize", key=key, nthreads=2,
+                   launcher=("/bin/sh", "-c", 'ulimit -f 16; ulimit -n 64; exec "$@"', "sh"))      # 16 x 1024-byte blocks (sh) / 512 (dash)
+    if not d.start():
+        findings.append({"kind": "daemon does not start under a file-size limit", "class": "fsize"})
+        return 0
+    stage = "refused requests until the log is at its limit"
+    bad = rig.hdr(9, 0, 4) + b"abcd"
+    try:
+        size0 = -1
+        for i in range(1500):
+            send_item(d.sock, bad)
+            n += 1
+            if i % 50 == 49:
+                sz = os.path.getsize(os.path.join(d.dir, "stderr"))
+                if sz == size0:
+                    break                          # the log no longer grows: at the limit
+                size0 = sz
+            if not d.alive():
+                break
+        ctx.count(("fsize", "log-full", size0))
+        c = None
+        if d.alive():
+            c = rig.canary(d.sock)
+        if d.alive() and not c:
+            stage = "the acceptor runs out of descriptors (it reports that in the log) with the log at its limit"
+            idle = []
+            for i in range(80):
+                try:
+                    k = _s.socket(_s.AF_UNIX, _s.SOCK_STREAM)
+                    k.settimeout(0.5)
+                    k.connect(d.sock)
+                    idle.append(k)
+                except OSError:
+                    break
+            time.sleep(0.5)
+            for k in idle:
+                k.close()
+            time.sleep(0.3)
+            n += len(idle)
+        if d.alive() and not c:
+            stage = "SIGHUP (the main thread logs 'Processing signal') with the log at its limit"
+            d.p.send_signal(_sg.SIGHUP)
+            time.sleep(0.5)
+            n += 1
+        if d.alive() and not c:
+            t0 = time.time()
+            c = "no reply"
+            while time.time() - t0 < 10 and c:
+                c = rig.canary(d.sock)
+                if c:
+                    time.sleep(0.5)
+        alive = d.alive()
+        rcode = d.p.poll()
+    finally:
+        rc, rep = d.stop()
+    if not alive or c:
+        findings.append({"kind": ("munged under a file-size limit (log at the limit, %d bytes) %s during: %s"
+                                  % (size0, ("died (exit status %s)" % rcode) if not alive else ("stopped serving: %s" % c), stage)),
+                         "class": "fsize", "raw_hex": bad.hex()})
+    return n
+
+
 def live_phase(ctx):
     exe, err = rig.build_daemon(ctx, san="address")
     if exe is None:
@@ -446,6 +515,7 @@ def live_phase(ctx):
     dist["valid"] = valid_phase(ctx, findings)
     dist["logsink"] = logsink_phase(ctx, exe, key, findings)
     dist["double-stall"] = double_stall_phase(ctx, exe, key, findings)
+    dist["fsize"] = fsize_phase(ctx, exe, key, findings)
     ctx.cov["input_distribution"] = dist
     # de-duplicate by (kind, top frame)
     seen = set()
@@ -461,7 +531,7 @@ def live_phase(ctx):
         what = "%s on input class %s" % (f["kind"], f.get("class"))
         if f.get("sanitizer"):
             what += " [%s at %s]" % (f["sanitizer"][0], " <- ".join("%s %s:%d" % fr for fr in f.get("frames", [])[:3]))
-        ctx.violation(what, f, found_input=("raw_hex" in f or f.get("class") in ("stall", "oversize", "valid")))
+        ctx.violation(what, f, found_input=("raw_hex" in f or f.get("class") in ("stall", "oversize", "valid", "fsize")))
 
 
 def _run_own(ctx):
